@@ -46,4 +46,33 @@ cd $S/repo
 go1.26.8 tool cover -func=$S/cover.all > $S/func.txt 2>$S/func.err || { cat $S/func.err | head; }
 mkdir -p /verif/reach
 { echo "# statement coverage of pandora under the quick-tier workloads, $runs runs per property ($props)"; tail -1 $S/func.txt; echo "# functions below 100 %, lowest first"; grep -v '100.0%' $S/func.txt | grep -v '^total' | sed "s#github.com/yandex/pandora/##" | awk '{print $NF, $1, $2}' | sort -n ; } > /verif/reach/coverage.txt
+python3 - "$S" <<'EOF2'
+# uncovered blocks of the files the properties are anchored in, with their first source line
+import json, sys, collections
+S = sys.argv[1]
+anch = set()
+for l in open('/verif/properties.jsonl'):
+    anch.update(json.loads(l)['anchors']['files'])
+cov = collections.defaultdict(int)
+for l in open(S + '/cover.all'):
+    if l.startswith('mode:'): continue
+    blk, n, c = l.rsplit(' ', 2)
+    cov[blk] |= int(c) > 0
+out = []
+for blk, c in sorted(cov.items()):
+    if c: continue
+    f, rng = blk.split(':')
+    rel = f.replace('github.com/yandex/pandora/', '')
+    if rel not in anch: continue
+    a = rng.split(',')[0].split('.')
+    try:
+        src = open(S + '/repo/' + rel).read().split('\n')
+        line = src[int(a[0]) - 1].strip()
+        nxt = src[int(a[0])].strip() if int(a[0]) < len(src) else ''
+    except Exception:
+        line = nxt = '?'
+    out.append('%s:%s  %s | %s' % (rel, rng, line[:90], nxt[:70]))
+open('/verif/reach/uncovered_anchor_blocks.txt', 'w').write('# blocks of anchored files no quick-tier run reached (line numbers are those of the instrumented copy)\n' + '\n'.join(out) + '\n')
+print(len(out), 'uncovered blocks in anchored files')
+EOF2
 tail -1 $S/func.txt
